@@ -100,7 +100,9 @@ def denseGetI [Zero α] (T : Dense α) (i : List Int) : Except Reject α :=
   if i.length == T.shape.length && inBoundsI T.shape w then .ok (T.get (w.map Int.toNat))
   else .error .reject
 
-/-- `uniform(data, samples)` on a dense tensor. -/
+/-- `uniform(data, samples)`: `T` is the array the data tensor denotes (for sparse data, which
+`GCPSampler` also binds `uniform` to, the array written out; after 3523a7b the values are a 1-d
+array for both representations). -/
 def uniformS [Zero α] [Mul α] [Div α] [NatCast α] (floor : α → Int) (T : Dense α) (samples : Nat)
     (draws : List (List α)) : Except Reject (Sample α) := do
   let subs := draws.map (drawRow (drawSub floor) T.shape)
